@@ -13,3 +13,18 @@ claim("C02",
       "Same histories and lattices as C01 restricted to dependency-rich families; at EVERY lattice node has_missing_updates() must equal 'some delivered block lacks an origin/right-origin/parent/quoted id or a delivered deletion targets an absent id' (least fixed point over the decoded updates' dependency ids, from the verif hook); relay deviation (full-state export of a gapped replica into a fresh one, then the withheld updates) must reach the reference content, state vector and no pending.",
       "dependency ids trusted from yrs::verif::update_dump; bounded alphabets; <= 2 replicas quick",
       "DESIGN.md 4/C02")
+claim("C04",
+      "bounded-exhaustive history enumeration + subset-lattice delivery with an element-identity monitor on every state",
+      "C01-style histories over text / array / xml children with uniquely tagged elements on 2..3 real replicas; on every author state along the history and every lattice node (every delivery order): an element is visible iff its id is integrated (hook dump) and no delivered update deletes it, never twice; a global before(x,y) relation fixed the first time two elements are visible together (which includes the author's state right after each insertion, so neighbour placement and multi-element order are pinned) holds in every later state of every replica.",
+      "element identity by unique tag content; tag->id from the verif hook's store dump; undo/redo excluded (C12)",
+      "DESIGN.md 4/C04")
+claim("C05",
+      "bounded-exhaustive history enumeration (every happened-before shape among <= L operations on a key, every client-id order) + subset-lattice delivery with a causal-LWW monitor",
+      "Histories of set/remove/clear on two keys of a root map (and nested containers) on 2..3 real replicas with every sync placement; at every replica state with nothing pending the value of each key must be absent or written by a causally maximal write, absent only if a maximal removal exists, and a maximal write without a concurrent sibling write must win; every integrated item below a deleted container item must be deleted.",
+      "happened-before tracked by the harness; the tie-break between concurrent sibling writes is left free (reading recorded in DESIGN.md)",
+      "DESIGN.md 4/C05")
+claim("C17",
+      "bounded-exhaustive history enumeration + subset-lattice delivery; pairwise comparison of all public read accessors on every visited state",
+      "Every replica state reached by C01-style histories over all families (incl. unicode and rich text, nested types, xml), Bytes and Utf16 offsets, gc on/off, and by every delivery order of their update pools (incl. states with stashed updates) is read through every public accessor of every live type; len/iter/get/to_json, get_string/diff/len, keys/values/iter/contains_key/get, xml children/first_child/get/siblings/parent/successors and the rendered string parsed back must agree.",
+      "types read through the API of their own kind; tiny XML reader in the harness (harness/src/reads.rs)",
+      "DESIGN.md 4/C17")
